@@ -7,7 +7,7 @@ import pres_check as K
 
 EXTRA_VO = PC.EXTRA_VO
 TRUSTED_BASE = K.TRUSTED_COMMON + [
-    "theorems cover the modelled proof kinds (BBS / PS signature proofs, commitment, equality); for revocation, membership, range and verifiable-encryption proofs the single-site mutations are run against the implementation only",
+    "theorems cover the modelled proof kinds (BBS / PS signature proofs, commitment, equality, and the element response of a revocation proof); for the rest of the revocation proof, membership, range and verifiable-encryption proofs the single-site mutations are run against the implementation only",
     "correspondence: (a) post-creation modifications of the external prover's presentations evaluated by the Coq verifier model and by Presentation::verify; (b) Presentation::create output over every statement kind, every scalar / point leaf replaced by a random element, zero / identity, its negation, +1 / +G and a sibling leaf, every proof removed, two proofs swapped, challenge +1, disclosed claim value / label changed, single-byte and single-bit changes of the BARE encoding (harness/src/ops_create.rs action tamper)",
 ]
 ASSUMPTIONS = ["generators and a_bar, b_bar are not the identity (checked by the verifier / by key validity)",
@@ -21,9 +21,10 @@ DEVS = [
     {"dev": {"k": "tamper_bp"}, "target": "c0"}, {"dev": {"k": "tamper_C"}, "target": "c0"},
     {"dev": {"k": "tamper_extend_minus_c"}}, {"dev": {"k": "tamper_extend_zero"}}, {"dev": {"k": "tamper_shorten"}},
     {"dev": {"k": "challenge_arbitrary"}}, {"dev": {"k": "omit_sig"}}, {"dev": {"k": "omit_pred"}, "target": "c0"},
+    {"dev": {"k": "rev_tamper_sy"}, "target": "r0"}, {"dev": {"k": "omit_pred"}, "target": "r0"},
     {"dev": {"k": "inner_id_other", "other": "zz"}}, {"dev": {"k": "resp_len", "delta": 1}}, {"dev": {"k": "resp_len", "delta": -1}},
 ]
-SHAPES = [dict(n_creds=1, comm=True), dict(n_creds=2, eq=True, comm=True), dict(n_creds=1)]
+SHAPES = [dict(n_creds=1, comm=True), dict(n_creds=2, eq=True, comm=True), dict(n_creds=1), dict(n_creds=1, rev=True, comm=True, n_claims=4)]
 
 
 def explore(ctx):
